@@ -29,6 +29,9 @@ let content_of s =
 
 let res_s = function ROk -> "ok" | RMismatch -> "mismatch" | RNotExist -> "notexist" | ROther -> "other"
 
+(* the reply of a signalling command: no error field, or an error *)
+let sig_s = function ROk -> "ok" | _ -> "error"
+
 let ids_s l =
   if l = [] then "-"
   else String.concat "," (List.map string_of_int (List.sort compare l))
@@ -52,7 +55,12 @@ let comp_tokstore : Registry.comp = fun _params ->
       | Some (x, _) -> Some x
       | None -> Some bad_stamp in
   let run o = let (s', out) = step !st o in st := s'; out in
-  let arun q = let (s', r) = api_step !st q in st := s'; r in
+  (* "fault" arms the EMFILE fault for the next operation that may write *)
+  let fault = ref false in
+  let take () = let f = !fault in fault := false; f in
+  let wrun w = let (s', out) = wstep (take ()) !st w in st := s'; out in
+  let arun q = let (s', r) = api_step_f (take ()) !st q in st := s'; r in
+  let srun q = let (s', r) = sig_step (take ()) !st q in st := s'; r in
   let hval_of_s s =
     if s = "-" then None else if s = "*" then Some HStar
     else match etag_of_s s with Some x -> Some (HTag x) | None -> None in
@@ -69,12 +77,22 @@ let comp_tokstore : Registry.comp = fun _params ->
         | ROk -> "ok " ^ etag_s o.o_etag ^ " " ^ ids_s (List.map (fun t -> int_of_z t.tk_name) o.o_toks)
         | r -> res_s r ^ " - -")
     | ["upd"; t; e; st0; s] ->
-       res_s (run (ODo (WUpdate (tok_of t, etag_of_s e, stamp_of st0, stamp_of s)))).o_res
+       res_s (wrun (WUpdate (tok_of t, etag_of_s e, stamp_of st0, stamp_of s))).o_res
     | ["del"; n; e; s] ->
-       res_s (run (ODo (WDelete (z n, etag_of_s e, stamp_of s)))).o_res
+       res_s (wrun (WDelete (z n, etag_of_s e, stamp_of s))).o_res
     | ["expire"; now; s] ->
        res_s (run (ODo (WExpire (z now, stamp_of s)))).o_res
     | ["ext"; c; s] -> ignore (run (OExternal (content_of c, stamp_of s))); "-"
+    | ["fault"] -> fault := true; "-"
+    | ["smake"; t; s] ->
+       sig_s (srun (SMake (tok_of t, stamp_of "0:0", stamp_of s))).o_res
+    | ["sedit"; g; n; e; nb; s] ->
+       sig_s (srun (SEdit (z g, z n, opt_z e, opt_z nb, stamp_of "0:0", stamp_of s))).o_res
+    | ["slist"; g] ->
+       let o = srun (SList (z g)) in
+       (match o.o_res with
+        | ROk -> "ok " ^ ids_s (List.map (fun t -> int_of_z t.tk_name) o.o_toks)
+        | r -> "error -")
     | ["restart"] -> ignore (run ORestart); "-"
     | ["repoint"] -> ignore (run ORepoint); "-"
     | ["view"; k] ->
